@@ -1,4 +1,4 @@
-import Qfproto.SorterSorted
+import QF.Core.SorterSorted
 /-! Prototype: heapSort of the mirror sorts its range. -/
 namespace Sorter
 
